@@ -23,9 +23,12 @@
                                                                     → `mapOf` (a Go map is kept as a list of entries in
                                                                        the canonical order `keyLt`; SetMapIndex = `mapSet`)
 
+  Flat structs through a derived object type are modelled at the end of the file (own code ↔ model map there).
+
   Not modelled (see props/C18.json): `reflect` itself (it is the parameter of the model: MakeSlice, SetMapIndex, Set,
-  settable-ness behave as the Go documentation says), structs / object types / tags, interface{} holding anything but a
-  scalar, map keys other than integers, strings and booleans, named types, Runtime fall-back values, NaN payloads.
+  settable-ness behave as the Go documentation says), nested structs / pointers to structs / embedding / tags other than
+  `name` / the implementation registry, interface{} holding anything but a scalar, map keys other than integers, strings
+  and booleans, named types, Runtime fall-back values, NaN payloads.
   Strings are valid UTF-8.  Core-only file (linked into the driver).
 -/
 namespace Pcore.Reflect
